@@ -27,10 +27,10 @@ use vrp_core::models::{GoalContext, Problem as CoreProblem, Solution as CoreSolu
 use vrp_core::solver::search::*;
 use vrp_core::solver::*;
 
-type Op = Arc<dyn HeuristicSearchOperator<Context = RefinementContext, Objective = GoalContext, Solution = InsertionContext> + Send + Sync>;
+pub(crate) type Op = Arc<dyn HeuristicSearchOperator<Context = RefinementContext, Objective = GoalContext, Solution = InsertionContext> + Send + Sync>;
 
 /// Named operator alphabet, constructed through the public constructors.
-fn operators(core: &Arc<CoreProblem>, env: &Arc<Environment>) -> Vec<(String, Op)> {
+pub(crate) fn operators(core: &Arc<CoreProblem>, env: &Arc<Environment>) -> Vec<(String, Op)> {
     let random = env.random.clone();
     let limits = RemovalLimits::new(core.as_ref());
     let small = RemovalLimits { removed_activities_range: 1..3, affected_routes_range: 1..2 };
@@ -107,14 +107,14 @@ impl World {
         Ok(World { family: family.to_string(), problem: problem.clone(), core, random, env })
     }
 
-    fn refinement_ctx(&self, known: &InsertionContext) -> RefinementContext {
+    pub(crate) fn refinement_ctx(&self, known: &InsertionContext) -> RefinementContext {
         let population: TargetPopulation = Box::new(Greedy::new(self.core.goal.clone(), 1, None));
         let mut ctx = RefinementContext::new(self.core.clone(), population, TelemetryMode::None, self.env.clone());
         ctx.add_solution(known.deep_copy());
         ctx
     }
 
-    fn start(&self, policy: u64) {
+    pub(crate) fn start(&self, policy: u64) {
         self.random.reset(vec![], if policy == 0 { Fallback::Default } else { Fallback::Stream(policy) });
         reseed(policy);
     }
@@ -248,7 +248,7 @@ fn full_digest(ctx: &InsertionContext) -> String {
 }
 
 /// C04 invariants I1-I4 on the context itself.
-fn structural(world: &World, ctx: &InsertionContext) -> Vec<(String, String)> {
+pub(crate) fn structural(world: &World, ctx: &InsertionContext) -> Vec<(String, String)> {
     let mut errs = vec![];
     let all: Vec<Job> = world.core.jobs.all().iter().cloned().collect();
     let mut places: HashMap<String, Vec<String>> = HashMap::new();
@@ -397,7 +397,7 @@ fn structural(world: &World, ctx: &InsertionContext) -> Vec<(String, String)> {
 }
 
 /// I5: what is assigned is feasible (independent oracle on the written solution).
-fn feasibility(world: &World, ctx: &InsertionContext) -> Vec<(String, String)> {
+pub(crate) fn feasibility(world: &World, ctx: &InsertionContext) -> Vec<(String, String)> {
     let copy = ctx.deep_copy();
     let solution: CoreSolution = (copy, None).into();
     match catch(|| write_solution(world.core.as_ref(), &solution)) {
